@@ -21,9 +21,32 @@ def worker(job):
     try:
         with gen_ref.quiet():
             gen_ref.make_reference(case, seed, rng.choice([1, 2, 3, 4]))
+            if rng.random() < 0.5:
+                # GENCODE lines also carry a transcript_type, which may differ from the gene_type
+                # (retained_intron isoform of a protein-coding gene …): the biotype filters of the
+                # command look at the GENE biotype
+                lines_ = open(case.gtf).read().split('\n')
+                nc_ = sorted({[a.strip().split(' ')[1] for a in ln.split('\t')[8].split(';')
+                               if a.strip().startswith('transcript_id')][0]
+                              for ln in lines_ if '\ttranscript\t' in ln and 'is_protein_coding false' in ln})
+                tt_ = {t: rng.choice(['retained_intron', 'processed_transcript', 'IG_V_gene', 'protein_coding',
+                                      'lncRNA', 'misc_RNA']) for t in nc_ if rng.random() < 0.8}
+                out_ = []
+                for ln in lines_:
+                    f = ln.split('\t')
+                    if len(f) > 8:
+                        t = [a.strip().split(' ')[1] for a in f[8].split(';') if a.strip().startswith('transcript_id')]
+                        if t and t[0] in tt_ and f[2] != 'gene':
+                            ln = ln + f' transcript_type {tt_[t[0]]};'
+                    out_.append(ln)
+                with open(case.gtf, 'wt') as fh:
+                    fh.write('\n'.join(out_))
+                if tt_:
+                    out['stats']['transcript_type_differs_from_gene_type'] = len(
+                        [t for t, v in tt_.items() if v != 'lncRNA'])
             genome, anno, proteome = gen_ref.load_reference(case)
         kw = dict(cleavage_rule='trypsin', cleavage_exception=rng.choice([None, None, 'auto']),
-                  miscleavage=rng.choice([0, 1, 2, 2]), min_mw=rng.choice([300., 500., 800.]),
+                  miscleavage=rng.choice([0, 1, 2, 2, 3, 3]), min_mw=rng.choice([300., 500., 800.]),
                   min_length=rng.choice([5, 7, 9]), max_length=rng.choice([15, 25, 40]))
         coding_orf = rng.random() < 0.35
         if coding_orf and kw['cleavage_exception'] is None and rng.random() < 0.7:
